@@ -108,6 +108,9 @@ def expand(case: dict, hist: list, oracle: Oracle) -> tuple[core.CaseResult, lis
         k0 = tree.state_key(base)
         opl = ops.enum_ops(base, case.get('level', oracle.level), oracle.kinds, oracle.model_filter)
         opl = [op for op in opl if oracle.op_filter(base, op)]
+        focus = case.get('focus')       # {'path': [...], 'attrs': [...]}: restrict the alphabet to one field and its views
+        if focus:
+            opl = [op for op in opl if len(op) > 2 and op[1] == focus['path'] and op[2] in focus['attrs']]
         for op in opl:
             h2 = hist + [op]
             r = core.CaseResult()
@@ -260,3 +263,19 @@ def class_cases(depth: int = 1, *, level: Optional[str] = None, modes=(True,), l
                 c['lf'] = lf
             out.append(c)
     return out
+
+
+FOCUS_SUBJECTS = [
+    ('2000-01-01 open Assets:Foo USD, EUR\n', ['_directives', 'items[0]'], ['raw_currencies', 'currencies']),
+    ('2000-01-01 *\n  Assets:Foo 1 USD\n  Assets:Bar\n', ['_directives', 'items[0]'], ['raw_postings_with_comments', 'raw_postings', 'postings']),
+    ('2000-01-01 *\n  aa: 1\n  bb: 2\n', ['_directives', 'items[0]'], ['raw_meta_with_comments', 'raw_meta', 'meta']),
+    ('2000-01-01 * "n" #t ^l\n', ['_directives', 'items[0]'], ['raw_tags_links', 'tags', 'links']),
+    ('option "a" "b"\n\n; c\n\n2000-01-01 open Assets:Foo\n', [], ['raw_directives_with_comments', 'raw_directives', 'directives']),
+    ('2000-01-01 custom "x" 1 TRUE\n', ['_directives', 'items[0]'], ['raw_values', 'values']),
+]
+
+
+def focus_cases(depth: int = 3, level: str = 'basic', subjects=None) -> list[dict]:
+    """histories of `depth` steps confined to one repeated field and its aliasing views"""
+    return [{'text': t, 'mode': True, 'depth': depth, 'level': level, 'focus': {'path': p, 'attrs': a}}
+            for t, p, a in (subjects or FOCUS_SUBJECTS)]
